@@ -24,6 +24,27 @@ NOT_APPLICABLE = {
 
 # id -> (technique, level text, level note, design ref)
 CLAIMS = {
+    'C21': ('reversal-pairing patterns, linear-form equality of the four lattice-vector formulas, sibling equality of the '
+            'search-range formula, pop-during-iteration lint, alpha-insensitive pattern for the symmetry expansion',
+            'Static, exhaustive over Crystal.jumpnetwork / jumpnetwork2lattice and the three other sites of the lattice-vector '
+            'formula: decides reversal closure by construction, agreement of the lattice form, agreement of the search '
+            'range with its sibling, safe removal of obstructed classes, and that each class is expanded with every group '
+            'operation. Completeness w.r.t. the cutoff and the obstruction geometry are not decided.',
+            'trusts CPython ast', 'DESIGN.md §4 C21'),
+    'C24': ('memo-guard key completeness, sibling equality of the canonicalised star-partition block, alpha-insensitive '
+            'patterns for the combination loops and index rebuild, dependency analysis of module-level cache keys',
+            'Static, exhaustive over StarSet: decides that generate compares every parameter it depends on, that the three '
+            'copies of the partition block agree and span the whole group, that __iadd__/diffgenerate combine the states of '
+            'both operands, that lookups are rebuilt from the stars, and that no module-level cache omits a dependency from '
+            'its key. Completeness of reachability is a search and not decided.',
+            'trusts CPython ast; exemption: threshold of generate (reason recorded)', 'DESIGN.md §4 C24'),
+    'C26': ('reversal-pairing patterns with guards, def-use of the jump displacement, lock-step append/pop rules, '
+            'membership-predicate pattern for the outer shell, exchange-symmetry + conjunction shape of the pruning test',
+            'Static, exhaustive over symmequivjumplist, the omega1/omega2 builders and the pruning in VacancyMediated.generate: '
+            'decides reversal closure, provenance of dx, lock-step of the parallel lists, that the outer shell is defined by '
+            'membership, and that pruning removes only classes with both stars outside the thermodynamic range. "Exactly '
+            'once" is a search and not decided.',
+            'trusts CPython ast', 'DESIGN.md §4 C26'),
     'C11': ('def-use / must-pass-through rules on zip alignments (flow), alpha-insensitive AST patterns for the '
             'representative coherence, reaching-use lint for the raw dipole arguments',
             'Static, exhaustive over the dipole population and its consumers: decides that every populated dipole is the '
